@@ -292,9 +292,15 @@ def check_item_immutability(ctx, out):
 def rule_c(ctx, out):
     rd = ctx.func(f"{P}.build_asm_bytecode")
     # renumbering only under name == 'PUSHLIB'
+    # the constructor call tells which locals are the item's value and real_value
+    ctor = [c for c in calls_in(rd.node, "AsmBytecode") if len(c.args) >= 8 and isinstance(c.args[4], ast.Name) and isinstance(c.args[7], ast.Name)]
+    if not ctor:
+        raise AnalysisError("build_asm_bytecode: AsmBytecode(..., value, ..., real_value) construction not found")
+    VALUE, REAL = ctor[0].args[4].id, ctor[0].args[7].id
     renumber = []
     for n in own_nodes(rd.node):
-        if isinstance(n, ast.Assign) and is_name(n.targets[0], "value") and isinstance(n.value, ast.Subscript):
+        if isinstance(n, ast.Assign) and is_name(n.targets[0], VALUE) and isinstance(n.value, ast.Subscript) and isinstance(n.value.value, ast.Name) \
+                and n.value.value.id in rd.params[1:]:
             renumber.append(n)
     if not renumber:
         raise AnalysisError("build_asm_bytecode: PUSHLIB renumbering not found")
@@ -304,7 +310,7 @@ def rule_c(ctx, out):
             isinstance(x, ast.Constant) and x.value == "PUSHLIB" for x in ast.walk(p.test))
         if ok:
             # real_value keeps the original in the same branch
-            keeps = any(isinstance(s, ast.Assign) and is_name(s.targets[0], "real_value") for s in p.body)
+            keeps = any(isinstance(s, ast.Assign) and is_name(s.targets[0], REAL) for s in p.body)
             if keeps:
                 out.ok({"PUSHLIB": "value renumbered, real_value keeps the original"})
             else:
